@@ -381,6 +381,24 @@ def _promote(ctx, tags_all) -> None:
                     ctx.ob("b.promote", f, role, False, "", f.node, message="; ".join(problems))
     if bad > 8:
         ctx.info(f"b.promote: {bad} failing cells in total; first 8 reported")
+    # a dtype whose kind is a SUBCLASS of a builtin kind (Vector(xs, dtype=MyFloat) carries DataType(MyFloat)): promotion never
+    # narrows it below the builtin kind it stands for and never drops nullability
+    sub_bad = []
+    n_sub = 0
+    for k in SUB_TAGS:
+        if canon(k) not in NUMERIC + TEMPORAL:
+            continue
+        for n in (False, True):
+            d = DT(k, n)
+            for t in tags_all:
+                n_sub += 1
+                st, r = p(d, t)
+                if st != "return" or not isinstance(r, DT):
+                    sub_bad.append(f"promote_with({d!r}, {t}) {st}s {r!r}")
+                elif not geq(DT(canon(r.kind), r.nullable), DT(canon(k), n)):
+                    sub_bad.append(f"promote_with(<{k}: a subclass of {canon(k)}>, {t} value) NARROWS to {r!r}")
+    ctx.ob("b.promote", f, "subclass-kinds", not sub_bad, f"{n_sub} (subclass kind, value) cells: never below the builtin kind", f.node,
+           message="; ".join(sub_bad[:3]))
 
 
 def _infer_kind(ctx, tags_all) -> None:
@@ -458,9 +476,11 @@ def _result_sites(ctx) -> None:
 
 _TY = "typing"
 MUTANTS = [
+    dict(id="promote-ignores-subclass-kind", module="typing", old="        own = kind_of_type(self.kind)\n", new="        own = self.kind\n",
+         rules=["b.promote"], desc="reverts fix fe9e234"),
     dict(id="ladder-int-before-float", module=_TY,
-         old="            elif self.kind is float or vtype is float:\n                new_kind = float\n            elif self.kind is int or vtype is int:\n                new_kind = int",
-         new="            elif self.kind is int or vtype is int:\n                new_kind = int\n            elif self.kind is float or vtype is float:\n                new_kind = float",
+         old="            elif own is float or vtype is float:\n                new_kind = float\n            elif own is int or vtype is int:\n                new_kind = int",
+         new="            elif own is int or vtype is int:\n                new_kind = int\n            elif own is float or vtype is float:\n                new_kind = float",
          rules=["b.promote", "b.exchange", "b.spec"]),
     dict(id="none-returns-self", module=_TY,
          old="            if self.nullable:\n                return self\n            return DataType(self.kind, nullable=True)",
@@ -501,6 +521,6 @@ MUTANTS = [
          new="			name = uniquify(make_agg_name(col, suffix))\n			result_cols.append(Vector(out, dtype=col._dtype, name=name))",
          rules=["d.result-sites"]),
     dict(id="twin-ladder-rewrite", module=_TY, twin=True,
-         old="            if self.kind is complex or vtype is complex:\n                new_kind = complex\n            elif self.kind is float or vtype is float:\n                new_kind = float\n            elif self.kind is int or vtype is int:\n                new_kind = int\n            else:\n                new_kind = bool",
-         new="            if complex in (self.kind, vtype):\n                new_kind = complex\n            elif float in (self.kind, vtype):\n                new_kind = float\n            elif int in (self.kind, vtype):\n                new_kind = int\n            else:\n                new_kind = bool"),
+         old="            if own is complex or vtype is complex:\n                new_kind = complex\n            elif own is float or vtype is float:\n                new_kind = float\n            elif own is int or vtype is int:\n                new_kind = int\n            else:\n                new_kind = bool",
+         new="            if complex in (own, vtype):\n                new_kind = complex\n            elif float in (own, vtype):\n                new_kind = float\n            elif int in (own, vtype):\n                new_kind = int\n            else:\n                new_kind = bool"),
 ]
